@@ -14,7 +14,7 @@ use std::collections::HashMap;
 use walrus::ir::*;
 use walrus::*;
 
-struct St { r: Rng, idmap: HashMap<InstrSeqId, InstrSeqId>, pre: HashMap<InstrSeqId, InstrSeqId>, n_at: u64, n_dangling: u64, n_early: u64, n_calls: u64 }
+struct St { r: Rng, lmap: HashMap<LocalId, LocalId>, idmap: HashMap<InstrSeqId, InstrSeqId>, pre: HashMap<InstrSeqId, InstrSeqId>, n_at: u64, n_dangling: u64, n_early: u64, n_calls: u64 }
 
 /// all sequences of the subtree rooted at `s`, and all branch targets used inside it
 fn subtree(orig: &LocalFunction, s: InstrSeqId, seqs: &mut Vec<InstrSeqId>, targets: &mut Vec<InstrSeqId>) {
@@ -28,6 +28,10 @@ fn subtree(orig: &LocalFunction, s: InstrSeqId, seqs: &mut Vec<InstrSeqId>, targ
 }
 
 
+fn remap_locals(i: &Instr, l: &HashMap<LocalId, LocalId>) -> Instr {
+    let f = |x: LocalId| *l.get(&x).unwrap_or(&x);
+    match i { Instr::LocalGet(e) => Instr::LocalGet(LocalGet { local: f(e.local) }), Instr::LocalSet(e) => Instr::LocalSet(LocalSet { local: f(e.local) }), Instr::LocalTee(e) => Instr::LocalTee(LocalTee { local: f(e.local) }), other => other.clone() }
+}
 fn remap(i: &Instr, m: &HashMap<InstrSeqId, InstrSeqId>) -> Instr {
     match i {
         Instr::Br(b) => Instr::Br(Br { block: m[&b.block] }),
@@ -102,7 +106,7 @@ fn replay(b: &mut InstrSeqBuilder, orig: &LocalFunction, src: InstrSeqId, st: &R
                 calls.push(format!("{} ({}) [{}] [{}]", if use_at { format!("BIfElseAt {}", pos) } else { "BIfElse".to_string() }, irdump::seqty_coq(&ty), bc.borrow().join("; "), ba.borrow().join("; ")));
             }
             other => {
-                let ins = remap(other, &st.borrow().idmap); let term = irdump::instr_coq(&ins);
+                let ins = remap_locals(&remap(other, &st.borrow().idmap), &st.borrow().lmap); let term = irdump::instr_coq(&ins);
                 if use_at { b.instr_at(pos, ins); calls.push(format!("BInstrAt {} ({})", pos, term)); } else { b.instr(ins); calls.push(format!("BInstr ({})", term)); }
             }
         }
@@ -131,9 +135,12 @@ pub fn main(args: &[String]) {
         let ids: Vec<FunctionId> = module.funcs.iter_local().map(|(id, _)| id).collect();
         let mut pairs: Vec<(FunctionId, FunctionId, String)> = vec![];
         for fid in ids {
-            let st = RefCell::new(St { r: r.fork(), idmap: HashMap::new(), pre: HashMap::new(), n_at: 0, n_dangling: 0, n_early: 0, n_calls: 0 });
+            let st = RefCell::new(St { r: r.fork(), lmap: HashMap::new(), idmap: HashMap::new(), pre: HashMap::new(), n_at: 0, n_dangling: 0, n_early: 0, n_calls: 0 });
             let res = catch(|| {
                 let (params, results, args) = { let lf = module.funcs.get(fid).kind.unwrap_local(); let t = module.types.get(lf.ty()); (t.params().to_vec(), t.results().to_vec(), lf.args.clone()) };
+                // sometimes the parameters of the twin are fresh locals allocated in REVERSE order (their ids are not ascending in parameter order)
+                let args = if args.len() >= 2 && st.borrow_mut().r.chance(1, 2) { let mut fresh = vec![None; args.len()]; for k in (0..args.len()).rev() { fresh[k] = Some(module.locals.add(params[k])); }
+                    let fresh: Vec<LocalId> = fresh.into_iter().map(|x| x.unwrap()).collect(); for (o, n) in args.iter().zip(&fresh) { st.borrow_mut().lmap.insert(*o, *n); } fresh } else { args };
                 let mut fb = FunctionBuilder::new(&mut module.types, &params, &results);
                 let calls = { let orig = module.funcs.get(fid).kind.unwrap_local(); let entry = orig.entry_block(); let mut body = fb.func_body(); replay(&mut body, orig, entry, &st) };
                 let new_id = fb.finish(args, &mut module.funcs);
